@@ -241,6 +241,13 @@ func VerifyFunc(pkg *Pkg, cs *Contracts, key string) (fx *FnCtx, err error) {
 		}
 		outs = append(outs, fx.drainPending()...)
 	}
+	for callee, cs := range fc.CallAsserts {
+		for _, c := range cs {
+			if !fx.stmtAssertHit[c] {
+				return fx, fmt.Errorf("%s: 'before %s assert [%s]' matched no call (callee key or ordinal wrong?)", key, callee, c.Label)
+			}
+		}
+	}
 	for _, cs := range fc.StmtAsserts {
 		for _, c := range cs {
 			if !fx.stmtAssertHit[c] {
